@@ -4,6 +4,7 @@ import (
 	"context"
 	"encoding/json"
 	"fmt"
+	"net/url"
 	"os"
 	"regexp"
 	"sort"
@@ -453,6 +454,10 @@ func modelV3(d gen.S) gen.S {
 	for _, sv := range asArr(d["servers"]) {
 		sm, _ := sv.(gen.S)
 		u, _ := sm["url"].(string)
+		// an OpenAPI 3 server url is a URL: /caf%C3%A9 there is the base path /café of OpenAPI 2, which is plain text
+		if pu, err := url.Parse(u); err == nil && pu.Host != "" && pu.RawQuery == "" && pu.Fragment == "" {
+			u = pu.Scheme + "://" + pu.Host + pu.Path
+		}
 		servers = append(servers, strings.TrimSuffix(u, "/"))
 	}
 	sort.Strings(servers)
@@ -686,6 +691,8 @@ func c17Cases() []c17case {
 		{"schemes-all-four", func(d gen.S) { d["schemes"] = gen.Arr("http", "https", "ws", "wss") }},
 		{"schemes-websocket-only", func(d gen.S) { d["schemes"] = gen.Arr("ws") }},
 		{"no-basePath", func(d gen.S) { delete(d, "basePath") }},
+		{"basePath-non-ascii", func(d gen.S) { d["basePath"] = "/caf\u00e9/v1" }},
+		{"basePath-with-blank-and-reserved", func(d gen.S) { d["basePath"] = "/my api/v1;x=1" }},
 		{"no-host", func(d gen.S) { delete(d, "host"); delete(d, "schemes") }},
 		{"basic", func(d gen.S) {
 			d["securityDefinitions"] = gen.S{"b": gen.S{"type": "basic"}}
@@ -754,6 +761,10 @@ func c17Cases() []c17case {
 			d["parameters"] = gen.S{"SharedQ": gen.S{"name": "sq", "in": "query", "type": "string", "pattern": "^q$", "description": "shared q"}}
 			dig(d, "paths")["/pk/{id}"] = gen.S{"parameters": gen.Arr(gen.S{"name": "id", "in": "path", "required": true, "type": "integer", "minimum": 1.0, "description": "the id"}, gen.S{"name": "X-T", "in": "header", "type": "string", "enum": gen.Arr("a"), "required": true}, gen.S{"$ref": "#/parameters/SharedQ"}),
 				"get": gen.S{"operationId": "pk", "parameters": gen.Arr(gen.S{"name": "own", "in": "query", "type": "boolean", "default": true}), "responses": okResp()}}
+		}},
+		{"same-name-in-several-locations", func(d gen.S) {
+			dig(d, "paths")["/sn/{version}"] = gen.S{"parameters": gen.Arr(gen.S{"name": "version", "in": "path", "required": true, "type": "string", "pattern": "^v[0-9]+$"}, gen.S{"name": "trace", "in": "header", "type": "string", "maxLength": 8.0}, gen.S{"name": "trace", "in": "query", "type": "integer", "minimum": 1.0}),
+				"get": gen.S{"operationId": "sn", "parameters": gen.Arr(gen.S{"name": "version", "in": "query", "type": "integer", "minimum": 2.0}, gen.S{"name": "version", "in": "header", "type": "string", "enum": gen.Arr("a", "b")}, gen.S{"name": "limit", "in": "query", "type": "integer", "maximum": 50.0}), "responses": okResp()}}
 		}},
 		{"path-level-body-parameter", func(d gen.S) {
 			dig(d, "paths")["/pb"] = gen.S{"parameters": gen.Arr(gen.S{"name": "body", "in": "body", "required": true, "schema": gen.S{"$ref": "#/definitions/Pet"}}),
